@@ -68,9 +68,18 @@ func cmdOne(args []string) int {
 	trace := fs.Bool("trace", false, "")
 	out := fs.String("out", "", "write the plan here")
 	traceOnly := fs.Bool("traceonly", false, "print only the trace hash")
+	as := fs.String("as", "", "property: draw the profile and configuration the way that property's check worker does for this run seed")
 	fs.Parse(args)
-	cfg := drawConfig(*profile, *tier, newRand(*seed, "config"))
-	plan := &Plan{V: 1, Seed: *seed, Config: cfg}
+	cr := newRand(*seed, "config")
+	if *as != "" {
+		profiles := propertyProfiles[*as]
+		*profile = profiles[0]
+		if len(profiles) > 1 && cr.Chance(0.3) {
+			*profile = profiles[1+cr.Intn(len(profiles)-1)]
+		}
+	}
+	cfg := drawConfig(*profile, *tier, cr)
+	plan := &Plan{V: 1, Property: *as, Seed: *seed, Config: cfg}
 	w, res := executePlan(plan, false, *trace)
 	if *traceOnly {
 		if res.Error != "" {
@@ -219,6 +228,11 @@ func cmdWorker(args []string) int {
 				}
 			}
 		}
+	}
+	// the seeded search always gets at least half the budget, however long the enumeration took
+	// (on a loaded machine the enumeration alone can use the whole budget)
+	if min := time.Now().Add(*budget / 2); deadline.Before(min) {
+		deadline = min
 	}
 	for run := *idx; run < *maxRuns && time.Now().Before(deadline); run += *of {
 		runSeed := simrt.Stream(*seed, "run", run)
@@ -525,7 +539,14 @@ func cmdCheck(args []string) int {
 	for _, r := range results {
 		for _, v := range r.Violations {
 			if v.Property != *prop {
-				ev.Other[v.Property+"/"+v.Oracle]++
+				ok := v.Property + "/" + v.Oracle
+				ev.Other[ok]++
+				if ev.OtherSeeds == nil {
+					ev.OtherSeeds = map[string][]string{}
+				}
+				if len(ev.OtherSeeds[ok]) < 4 {
+					ev.OtherSeeds[ok] = append(ev.OtherSeeds[ok], fmt.Sprintf("profile=%s seed=%d shape=%s", r.Profile, r.Seed, v.Shape))
+				}
 				continue
 			}
 			if k := known.matches(v); k != nil {
